@@ -117,6 +117,49 @@ def build_session(rng, tmp, kind, metric, thorough, lattice=None):
     return s
 
 
+def build_pre_session(rng, tmp, kind):
+    """A model on a pre-computed n x n matrix: a sample IS a row of the matrix, addressed through the index array - the feature rows
+    handed along are not read (real features in some calls, one constant placeholder row for everybody in others).  The same index
+    gets the same answer whatever stands next to it in the batch and whatever features accompany it."""
+    import numpy as np
+    import opfython.math.distance as d
+    s = SC.Session(rng, tmp)
+    X, Y = make_data(rng, np, n=rng.randrange(7, 13))
+    n = len(X)
+    s.add(X, "X")
+    s.add(Y, "Y")
+    s.seal()
+    fn = d.DISTANCES["euclidean"]
+    D = np.array([[fn(X[i].copy(), X[j].copy()) for j in range(n)] for i in range(n)])
+    D = np.minimum(D, D.T)
+    nt = n if kind == "knn" else n - 3          # (KNNSupervisedOPF wants the matrix to be exactly training set x training set)
+    cfg = {"distance": "euclidean"}
+    if kind in ("knn", "unsup"):
+        cfg["max_k"] = rng.randrange(1, 4)
+    if kind == "unsup":
+        cfg["min_k"] = 1
+    o = s.new_model(kind, 1, **cfg)
+    m = s.objs[o]["m"]
+    m.pre_computed_distance = True
+    m.pre_distances = D
+    I = list(range(n))
+    rng.shuffle(I)
+    I, Iq = np.array(I[:nt]), np.array(I[nt:])
+    if kind == "knn":
+        Iv = np.array(rng.sample(list(I), 3))
+        Yv = Y[Iv].copy()
+        Yv[0] = Y.max()
+        extra = (X[Iv].copy(), Yv, Iv)
+    else:
+        extra = {"sup": (), "semi": (X[Iq].copy(),), "unsup": ()}[kind]
+    s.fit(o, 1, X[I].copy(), Y[I].copy(), extra, I=I)
+    for c_ in range(rng.randrange(6, 11)):
+        idx = np.array([rng.randrange(n) for _ in range(rng.randrange(1, n))])
+        feats = X[idx].copy() if c_ % 2 == 0 else np.full((len(idx), X.shape[1]), 0.5)
+        s.predict(o, 1, feats, idx, keys=idx)
+    return s
+
+
 def build_knn_pre_session(rng, tmp):
     """KNNSupervisedOPF on a pre-computed n x n matrix: samples are rows of the matrix, addressed through index arrays; the
     same row must get the same label whatever its position in the batch."""
@@ -165,6 +208,10 @@ def run(tier, seed):
         sessions.append((build_session(rng, tmp, kind, rng.choice(mets), thorough), {"kind": kind, "i": i}))
     for i in range(60 if thorough else 10):
         sessions.append((build_knn_pre_session(rng, tmp), {"kind": "knn-pre", "i": i}))
+    rng3 = random.Random(seed * 1000003 + 910)
+    for i in range(120 if thorough else 32):
+        kind = ["unsup", "knn", "sup", "unsup"][i % 4]
+        sessions.append((build_pre_session(rng3, tmp, kind), {"kind": kind + "-pre", "i": i}))
     # interleaved classes on a small integer lattice, queries on the same lattice: exact cost ties between differently labeled
     # samples are the rule here, and no tie-break may consult what earlier calls left behind
     rng2 = random.Random(seed * 1000003 + 909)
